@@ -135,11 +135,11 @@ contract(
     raises={"ValueError": "True"},
     cuts={
         "if username": {"nothing-yet": "len(out) == 0 and offset == 0", **AUTH_SPLIT, **AUTH_USERINFO},
-        "if not host": {"two-so-far": "len(out) <= 2", "no-userinfo-no-offset": "implies(b'@' not in authority, offset == 0)", **AUTH_SPLIT},
+        "if not host:": {"two-so-far": "len(out) <= 2", "no-userinfo-no-offset": "implies(b'@' not in authority, offset == 0)", **AUTH_SPLIT},
     },
     hints={
         # the user name / the password / the delimiter after the user name are slices of the userinfo, which is a slice of the authority
-        "if not host": [
+        "if not host:": [
             "slice-of-slice: x=authority; a=0; b=len(userinfo); s=0; e=len(username)",
             "slice-of-slice: x=authority; a=0; b=len(userinfo); s=len(username) + 1; e=len(userinfo)",
             "slice-of-slice: x=authority; a=0; b=len(userinfo); s=len(username); e=len(username) + 1",
@@ -230,6 +230,6 @@ decoder(
     each={**T("network.url", ""), "label": "node.obfuscation in ('', 'escape.percent')", "scheme": "url_scheme(node.value) in (b'http', b'https', b'ftp')",
           "host": "url_has_host(node.value)"},
     types={"out": "list[Node]"},
-    asserts={"start, end = match.span()": {"the-match-is-printable-ascii": "matches(rb'[!-~]*', group)"}},
+    asserts={"prev = data[start - 1]": {"the-match-is-printable-ascii": "matches(rb'[!-~]*', group)"}},
     hints={"normalized, obfuscation =": ["printable-slice: x=match.group(); a=0; b=prev", "printable-slice: x=match.group(); a=0; b=close"]},
 )
